@@ -60,6 +60,13 @@ func c13Policies(ctx *core.Ctx) [][]spec.Op {
 			spec.Op{K: spec.KAllowStyles, Attrs: []string{"color"}, Matcher: "enum", Enum: []string{"red", "Blue", "LEFT"}, Scope: "match", ElRe: `-`},
 			spec.Op{K: spec.KAllowStyles, Attrs: []string{"float", "clear"}, Matcher: "enum", Enum: []string{"Left", "RIGHT", "none"}, Scope: "global"},
 			spec.Op{K: spec.KAllowStyles, Attrs: []string{"float"}, Matcher: "handler", Handler: "short", Scope: "els", Names: []string{"div", "span"}},
+			// five more rules for one property spread over three patterns that all match my-x
+			spec.Op{K: spec.KAllowStyles, Attrs: []string{"color"}, Matcher: "re", Re: `^#[a-f]{3}$`, Scope: "match", ElRe: `^my-x$`},
+			spec.Op{K: spec.KAllowStyles, Attrs: []string{"color"}, Matcher: "re", Re: `^[0-9]+$`, Scope: "match", ElRe: `^my-x$`},
+			spec.Op{K: spec.KAllowStyles, Attrs: []string{"color"}, Matcher: "handler", Handler: "has-safe", Scope: "match", ElRe: `^my-`},
+			spec.Op{K: spec.KAllowStyles, Attrs: []string{"color"}, Matcher: "re", Re: `^_[A-Z]+$`, Scope: "match", ElRe: `-`, Fresh: true},
+			spec.Op{K: spec.KAllowStyles, Attrs: []string{"color"}, Matcher: "re", Re: `^x-[a-z0-9]*$`, Scope: "match", ElRe: `^my-`},
+			spec.Op{K: spec.KAllowAttrs, Attrs: []string{"style"}, Scope: "match", ElRe: `^my-`},
 			// the same attribute bound by name with a pattern first and without one later
 			spec.Op{K: spec.KAllowAttrs, Attrs: []string{"title", "lang"}, Re: `^[a-z]+$`, Scope: "els", Names: []string{"p", "div", "span", "a"}},
 			spec.Op{K: spec.KAllowAttrs, Attrs: []string{"title", "lang"}, Scope: "els", Names: []string{"p", "div", "span", "a"}},
@@ -256,7 +263,7 @@ func c13Inputs(r *rand.Rand, env *Env, idx, nIn int) []string {
 		if i%5 == 2 {
 			// the same attribute text on elements the policy treats differently (one element per input,
 			// and all of them in one input): a result must not depend on which was seen first
-			sty := gen.Pick(r, []string{"-webkit--moz-color: red", "mso--ms-float: left; -moz--webkit-color: blue", "float: left", "color: red", "margin: abc; color: blue", "width: 10px", "color: blue; float: right", "COLOR: RED"})
+			sty := gen.Pick(r, []string{"color: #abc", "color: 42", "color: safe-abc", "color: _AB", "color: x-a1", "color: abc", "-webkit--moz-color: red", "mso--ms-float: left; -moz--webkit-color: blue", "float: left", "color: red", "margin: abc; color: blue", "width: 10px", "color: blue; float: right", "COLOR: RED"})
 			val := gen.Pick(r, []string{"abc", "42", "#abc", "left", "x-a1"})
 			els := []string{"div", "span", "p", "my-x", "my-y", "x-foo", "b", "td", "a"}
 			if r.Intn(3) == 0 {
@@ -375,6 +382,31 @@ func c13Stress(ctx *core.Ctx, only int) {
 		env := NewEnv(pols[cs.Index])
 		r := cs.R
 		inputs := c13Inputs(r, env, cs.Index, nIn)
+		// a policy must not grow with every call: the same inputs three times over on a never-used
+		// instance. Something filled once (a cache) stops growing after the first round; state that
+		// grows again in the second and third round is a leak that changes later calls (at least their cost)
+		{
+			pg := spec.Build(env.Ops)
+			size := func() int {
+				fp := Fingerprint(pg)
+				n, _ := strconv.Atoi(fp[strings.LastIndex(fp, "/")+1:])
+				return n
+			}
+			s0 := size()
+			var sz [3]int
+			for round := 0; round < 3; round++ {
+				for _, in := range inputs[:nIn/2] {
+					pg.Sanitize(in)
+				}
+				sz[round] = size()
+			}
+			cs.Count("growth_rounds", 3)
+			if sz[1] > sz[0] && sz[2] > sz[1] && sz[2]-sz[1] >= (sz[1]-sz[0])/2 {
+				cs.Violate("C13:policy-grows-with-every-call", fmt.Sprintf("the policy's reachable state grows every time the same %d inputs are sanitised again: size %d before, %d / %d / %d after rounds 1-3", nIn/2, s0, sz[0], sz[1], sz[2]),
+					map[string]interface{}{"policy": spec.Describe(env.Ops), "ops": env.Ops, "sizes": []int{s0, sz[0], sz[1], sz[2]}})
+				return // later phases would only get slower and slower
+			}
+		}
 		fp0 := Fingerprint(env.Pol)
 		base := make([]string, nIn)
 		for i, in := range inputs {
